@@ -48,6 +48,21 @@ def run(run, h):
                 end = o + 8 + n * elem
                 extra = base[2 * (end - elem):2 * end] if n > 0 else "00" * elem
                 inputs.append(("prefix=%d+element" % v, base[:2 * o] + le8(v) + base[2 * (o + 8):2 * end] + extra + base[2 * end:]))
+        # every array of the same length resized CONSISTENTLY (each prefix says k and exactly k elements follow: the last one
+        # dropped, or repeated once more, or none at all): a well-formed encoding of a value of another shape, which the
+        # fixed-length types must refuse without relying on any single length check
+        all_lens = [(o, fl["n"], offs[i + 1][1] if i + 1 < len(offs) else 32) for i, (o, wd, kind, fl) in enumerate(offs) if kind == "len"]
+        for n0 in sorted({n for _, n, _ in all_lens}):
+            group = [(o, n, e) for o, n, e in all_lens if n == n0]
+            if len(group) < 2 or n0 == 0:
+                continue
+            for k in (0, n0 - 1, n0 + 1):
+                m = base
+                for o, n, e in sorted(group, reverse=True):
+                    body = m[2 * (o + 8):2 * (o + 8 + n * e)]
+                    nb = body[:2 * k * e] if k <= n else body + body[-2 * e:]
+                    m = m[:2 * o] + le8(k) + nb + m[2 * (o + 8 + n * e):]
+                inputs.append(("all_arrays_of_length_%d_resized_to_%d" % (n0, k), m))
         bounds = [o for o, _, _, _ in offs] + [total]
         if run.tier == "quick" and len(bounds) > 12:
             bounds = rng.sample(bounds, 12)
